@@ -8,6 +8,9 @@
 mod cases;
 mod dump;
 mod oracle;
+mod oracle_a;
+mod oracle_b;
+mod refeval;
 mod run;
 
 fn main() {
